@@ -199,7 +199,7 @@ def run(ctx):
         ns_out = o["impl"]["result"]["ok"]["nss"][0]
         for key, (n, exp) in d["refs"].items():
             v = locale_value_at(ns_out, "en", (key,))
-            got = pv_eval(Env(var=lambda k, f: "⟦" + k + "⟧"), v) if v else None
+            got = pv_eval(Env(var_fmt=False, vars={"var_count": str(n)}, counts={"var_count": n}), v) if v else None
             ctx.count("parse-time-count")
             if got != exp:
                 report_violation(ctx, "ranges:parse-time-branch-differs", {"case": project_text(p), "key": key, "count": n,
